@@ -191,13 +191,20 @@ def run(case, df, tmp):
     if mode == "archive":
         zpath = tmp / "arch.zip"
         member = f"sub/dir/{stem}.csv"
+        # other members of the same archive, written before and after, whose
+        # names contain / end with the requested one
+        decoy = pd.DataFrame({"decoy": [1.5, 2.5, 3.5, 4.5, 5.5, 6.5, 7.5]})
         with zipfile.ZipFile(zpath, "w") as ar:
+            csv.write_csv(decoy, "zz" + member, {"who": "decoy"}, src,
+                          archive=ar, **kw)
             csv.write_csv(df, member, comment, src, archive=ar, **kw)
+            csv.write_csv(decoy, member + ".bak.csv", {"who": "decoy"}, src,
+                          archive=ar, **kw)
         with zipfile.ZipFile(zpath, "r") as ar:
             names = ar.namelist()
-            if names != [member]:
-                raise Violation(f"archive members {names}, expected "
-                                f"[{member}]")
+            if sorted(names) != sorted(["zz" + member, member,
+                                        member + ".bak.csv"]):
+                raise Violation(f"archive members {names}")
             back, com = csv.read_csv(member, archive=ar)
     else:
         kind, _, ext = mode.partition(".")
